@@ -78,7 +78,7 @@ pub struct DegStats {
 }
 
 /// Check all degree claims of the SSA CFG on one line s0 + t*delta.
-pub fn check_degrees(c: &SemCase, ix: &IrIndex, line: &[Trace; 4], ssa: &Cfg, label: &str) -> Result<DegStats, Bad> {
+pub fn check_degrees(c: &SemCase, ix: &IrIndex, line: &[Trace; 4], ssa: &Cfg, label: &str, skip: &std::collections::BTreeSet<crate::gen::ast::Id>) -> Result<DegStats, Bad> {
     let mut st = DegStats { claims: 0, checked: 0, nontrivial: 0 };
     let render = || format!("prime {}\n{}\n--- SSA CFG ---\n{:?}", c.prime_name, c.r.src, ssa);
     for b in ssa.iter() {
@@ -92,6 +92,11 @@ pub fn check_degrees(c: &SemCase, ix: &IrIndex, line: &[Trace; 4], ssa: &Cfg, la
                 let Some(d) = deg_num(range.end()) else { return };
                 st.claims += 1;
                 let Some(key) = ix.expr_key(c, e) else { return };
+                if let ValKey::Expr(id) = key {
+                    if skip.contains(&id) {
+                        return;
+                    }
+                }
                 let (Some(v0), Some(v1), Some(v2), Some(v3)) = (vals(&line[0], key), vals(&line[1], key), vals(&line[2], key), vals(&line[3], key)) else { return };
                 let n = v0.len().min(v1.len()).min(v2.len()).min(v3.len());
                 for k in 0..n {
@@ -238,6 +243,14 @@ pub fn data_param_flags(c: &SemCase) -> Vec<bool> {
 /// depend on an indeterminate (signal, port, data parameter)?  The generator avoids
 /// this flow-sensitively; loops can still carry a later assignment back to an earlier read.
 pub fn control_depends_on_data(c: &SemCase, flags: &[bool]) -> bool {
+    taint_info(c, flags).0
+}
+
+/// (control flow may depend on an indeterminate, nodes inside the arms of conditional expressions
+/// whose condition depends on an indeterminate). The arms of such an expression are evaluated in
+/// some runs only, so their per-node value lists are not aligned across the four runs of a line;
+/// the conditional expression itself is evaluated every time and is checked.
+pub fn taint_info(c: &SemCase, flags: &[bool]) -> (bool, std::collections::BTreeSet<crate::gen::ast::Id>) {
     use crate::gen::ast::{Access, Expr, Stmt};
     use crate::gen::walk::{resolve, DeclRef};
     use std::collections::BTreeSet;
@@ -303,6 +316,8 @@ pub fn control_depends_on_data(c: &SemCase, flags: &[bool]) -> bool {
     }
     // control positions
     let mut bad = false;
+    let mut skip: BTreeSet<crate::gen::ast::Id> = BTreeSet::new();
+    let allow_data_ternary = c.profile.data_ternary_chance > 0;
     c.def.body.walk(&mut |s| {
         match s {
             Stmt::If { cond, .. } | Stmt::While { cond, .. } | Stmt::For { cond, .. } => bad |= expr_data(cond, &tainted),
@@ -325,7 +340,20 @@ pub fn control_depends_on_data(c: &SemCase, flags: &[bool]) -> bool {
         }
         for e in s.exprs() {
             e.walk(&mut |x| match x {
-                Expr::Ternary { c: cond, .. } => bad |= expr_data(cond, &tainted),
+                Expr::Ternary { c: cond, a, b, .. } => {
+                    if expr_data(cond, &tainted) {
+                        if allow_data_ternary {
+                            a.walk(&mut |y| {
+                                skip.insert(y.id());
+                            });
+                            b.walk(&mut |y| {
+                                skip.insert(y.id());
+                            });
+                        } else {
+                            bad = true;
+                        }
+                    }
+                }
                 Expr::Var { access, .. } => {
                     for a in access {
                         if let Access::Index(i) = a {
@@ -337,7 +365,7 @@ pub fn control_depends_on_data(c: &SemCase, flags: &[bool]) -> bool {
             });
         }
     });
-    bad
+    (bad, skip)
 }
 
 pub fn gen_c07_case(t: &mut Tape) -> SemCase {
@@ -368,7 +396,11 @@ fn case(tape: &[u8], rec: &Rec) -> Verdict {
     let ssa = lift_ssa(&c)?;
     let ix = build_index(&c);
     let flags = data_param_flags(&c);
-    if control_depends_on_data(&c, &flags) {
+    let (control_depends, skip) = taint_info(&c, &flags);
+    if !skip.is_empty() {
+        rec.class("programs_with_data_dependent_conditional_expression");
+    }
+    if control_depends {
         // outside the property's domain (Circom itself rejects such programs)
         rec.class("discarded_control_flow_may_depend_on_indeterminates");
         return Ok(());
@@ -385,7 +417,7 @@ fn case(tape: &[u8], rec: &Rec) -> Verdict {
         if line.iter().any(|t| t.stopped.is_some()) {
             rec.class("lines_with_truncated_run");
         }
-        let st = check_degrees(&c, &ix, &line, &ssa, "")?;
+        let st = check_degrees(&c, &ix, &line, &ssa, "", &skip)?;
         rec.class_n("degree_claims", st.claims);
         rec.class_n("claim_evaluations_checked", st.checked);
         rec.class_n("claim_evaluations_varying_along_line", st.nontrivial);
